@@ -68,3 +68,225 @@ def vbs_parse_ref(stream, max_len=6000):
             return recs, 'error'
         recs.append(stream[pos + 4:pos + 4 + n])
         pos += 4 + n
+
+
+# ---------------------------------------------------------------- ISO8583 reference codec (from the documentation)
+import binascii
+import datetime
+import re
+
+PDS_CARRIERS = (48, 62, 123, 124, 125)
+SAMPLE_DATE = datetime.datetime(2021, 3, 4, 5, 6, 7)
+
+
+class RefError(Exception):
+    pass
+
+
+def _flen(cfg):
+    return {'LLVAR': 2, 'LLLVAR': 3}.get(cfg['field_type'], 0)
+
+
+def ref_bitmap(bits):
+    v = 1 << 127
+    for b in bits:
+        v |= 1 << (128 - b)
+    return v.to_bytes(16, 'big')
+
+
+def ref_pack_pds(msg):
+    keys = sorted(k for k in msg if k.startswith('PDS'))
+    out, cur = [], ''
+    for k in keys:
+        v = msg[k]
+        add = '%04d%03d%s' % (int(k[3:]), len(v), v)
+        if len(cur) + len(add) > 999:
+            out.append(cur)
+            cur = ''
+        cur += add
+    if cur:
+        out.append(cur)
+    return out
+
+
+def ref_encode(msg, cfgs, enc='latin_1', hex_bitmap=False):
+    msg = dict(msg)
+    carriers = sorted(int(k) for k in cfgs if cfgs[k].get('field_processor') == 'PDS')
+    for c, s in zip(carriers, ref_pack_pds(msg)):
+        msg['DE%d' % c] = s
+    bits = sorted(int(k[2:]) for k, v in msg.items() if k.startswith('DE') and k[2:].isdigit() and (v or v == 0))
+    body = b''
+    for b in bits:
+        cfg = cfgs[str(b)]
+        v = msg['DE%d' % b]
+        w = cfg.get('field_length', 0)
+        pt = cfg.get('field_python_type')
+        if pt in ('int', 'long'):
+            v = '%0*d' % (w, int(v))
+        elif pt == 'datetime':
+            v = v.strftime(cfg.get('field_date_format', '%y%m%d'))
+        n = _flen(cfg)
+        if n:
+            if len(v) > 10 ** n - 1:
+                raise RefError('DE%d: %d characters cannot be counted by a %d-digit prefix' % (b, len(v), n))
+            body += ('%0*d' % (n, len(v))).encode(enc)
+            body += v if isinstance(v, bytes) else v.encode(enc)
+        else:
+            v = v if isinstance(v, bytes) else v.ljust(w)[:w].encode(enc)
+            body += v
+    bm = ref_bitmap(bits)
+    if hex_bitmap:
+        bm = binascii.hexlify(bm)
+    return msg['MTI'].encode(enc) + bm + body
+
+
+def ref_icc(data):
+    out = {'ICC_DATA': data.hex()}
+    i = 0
+    while i < len(data):
+        if data[i] in (0x9f, 0x5f):
+            tag = data[i:i + 2]
+            i += 2
+        else:
+            tag = data[i:i + 1]
+            i += 1
+        if tag == b'\x00':
+            break
+        if i >= len(data):
+            raise RefError('ICC tag without length')
+        ln = data[i]
+        out['TAG' + tag.hex().upper()] = data[i + 1:i + 1 + ln].hex()
+        i += 1 + ln
+    return out
+
+
+_PLAIN = re.compile(r'^[0-9]+$')
+
+
+def ref_decode(data, cfgs, enc='latin_1', hex_bitmap=False, strict_digits=True):
+    """strict independent reading; raises RefError when the message is not well framed.
+    returns (dict, dontcare) -- dontcare=True when a numeral was not plain decimal digits"""
+    hl = 36 if hex_bitmap else 20
+    if len(data) < hl:
+        raise RefError('short header')
+    out = {}
+    dontcare = False
+    try:
+        out['MTI'] = data[:4].decode(enc)
+    except UnicodeError:
+        raise RefError('MTI undecodable')
+    if not _PLAIN.match(out['MTI']):
+        try:
+            int(out['MTI'])
+            dontcare = True
+        except ValueError:
+            raise RefError('MTI not numeric')
+    bm = data[4:hl]
+    if hex_bitmap:
+        try:
+            bm = binascii.unhexlify(bm)
+        except binascii.Error:
+            raise RefError('bitmap not hex')
+    bits = [i + 1 for i in range(128) if bm[i // 8] & (0x80 >> (i % 8))]
+    pos = hl
+    for b in bits:
+        if b == 1:
+            continue
+        cfg = cfgs.get(str(b))
+        if not cfg:
+            raise RefError('no configuration for bit %d' % b)
+        n = _flen(cfg)
+        ln = cfg.get('field_length', 0)
+        if n:
+            raw = data[pos:pos + n]
+            try:
+                txt = raw.decode(enc)
+            except UnicodeError:
+                raise RefError('length undecodable')
+            if len(raw) < n:
+                raise RefError('truncated length prefix')
+            if not _PLAIN.match(txt):
+                try:
+                    ln = int(txt)
+                    dontcare = True
+                except ValueError:
+                    raise RefError('length not numeric')
+                if ln < 0:
+                    raise RefError('negative length')
+            else:
+                ln = int(txt)
+            pos += n
+        raw = data[pos:pos + ln]
+        if len(raw) < ln:
+            raise RefError('DE%d runs past the end of the message' % b)
+        pos += ln
+        proc = cfg.get('field_processor')
+        if proc == 'ICC':
+            out['DE%d' % b] = raw
+            out.update(ref_icc(raw))
+            continue
+        try:
+            v = raw.decode(enc)
+        except UnicodeError:
+            raise RefError('DE%d undecodable' % b)
+        if proc == 'PAN':
+            v = v[:6] + '*' * (len(v) - 10) + v[-4:]
+        if proc == 'PAN-PREFIX':
+            v = v[:9]
+        pt = cfg.get('field_python_type')
+        if pt in ('int', 'long'):
+            if not _PLAIN.match(v):
+                dontcare = True
+            try:
+                v = int(v)
+            except ValueError:
+                raise RefError('DE%d not a number' % b)
+        elif pt == 'datetime':
+            try:
+                v = datetime.datetime.strptime(v, cfg.get('field_date_format', '%y%m%d'))
+            except ValueError:
+                raise RefError('DE%d not a date' % b)
+        out['DE%d' % b] = v
+        if proc == 'PDS':
+            p = 0
+            while p < len(v):
+                tag, l3 = v[p:p + 4], v[p + 4:p + 7]
+                if len(l3) < 3:
+                    raise RefError('PDS header truncated')
+                if not _PLAIN.match(l3):
+                    try:
+                        k = int(l3)
+                        dontcare = True
+                    except ValueError:
+                        raise RefError('PDS length not numeric')
+                    if k < 0:
+                        raise RefError('negative PDS length')
+                else:
+                    k = int(l3)
+                if p + 7 + k > len(v):
+                    raise RefError('PDS value runs past the carrier')
+                out['PDS' + tag] = v[p + 7:p + 7 + k]
+                p += 7 + k
+        if proc == 'DE43' and cfg.get('field_processor_config'):
+            m = re.match(cfg['field_processor_config'], v)
+            if m:
+                g = m.groupdict()
+                if g.get('DE43_POSTCODE'):
+                    g['DE43_POSTCODE'] = g['DE43_POSTCODE'].rstrip()
+                out.update(g)
+    if pos != len(data):
+        raise RefError('%d bytes left over' % (len(data) - pos))
+    return out, dontcare
+
+
+def concrete_msg(msg, cfgs=None):
+    """JSON witness -> python values (dates are {'date': True}: a date representable in the element's format)"""
+    out = {}
+    for k, v in msg.items():
+        if isinstance(v, dict) and v.get('date'):
+            v = SAMPLE_DATE
+            if cfgs is not None and k.startswith('DE'):
+                fmt = cfgs.get(k[2:], {}).get('field_date_format', '%y%m%d')
+                v = datetime.datetime.strptime(v.strftime(fmt), fmt)
+        out[k] = v
+    return out
